@@ -20,6 +20,7 @@ RULE = ("(suite, sk, message) from Hypothesis - sk in {1, 2, r-2, r-1}, 2^k-1 / 
 ASSUMPTIONS = ["model decoder and model scalar multiplication (vf/model/bls12381.py) for the SkToPk side "
                "condition; everything else is a round trip through the library itself"]
 ENGINE = "hypothesis"
+TECHNIQUE = ("property-based testing (Hypothesis): sign/verify and prove/verify round trips through the public API with an independent-model side condition on the public key")
 _REQ = ["rt:basic", "rt:aug", "rt:pop", "pop", "reject:int", "reject:type", "keygen", "rt:sk=boundary",
         "rt:sk>=200b", "rt:msg=empty", "rt:msg=56-64", "rt:msg=65-1024"]
 REQUIRED_LABELS = {"quick": _REQ, "thorough": _REQ + ["rt:msg=>1KiB"]}
